@@ -101,6 +101,14 @@ CHECKS = {
             "fingerprint of pdb2pqr module/class state is taken around every run and reported, but never decides.",
             "Trusted: sha1 of the PQR bytes; the observable is the PQR file only. Histories explore sequences of "
             "length <= 24 over pools of <= 5 configurations per case.", "DESIGN.md#c11"),
+    "C09": ("exploration", "metamorphic monitor over recorded outputs of pairs of real runs differing in one option (random walks on the option lattice; drop-water vs stripped input; neutral termini vs charged)",
+            "Each step of a random walk flips one formatting/naming option and the new PQR is compared with its "
+            "predecessor on the token text of x/y/z/charge/radius, atom order and (except for ffout) names; "
+            "--drop-water output is compared byte for byte with the run on the water-stripped file; neutral-terminus "
+            "runs are compared residue by residue with the charged run and the total shift with the termini that "
+            "were actually neutralised.",
+            "Trusted: the harness' PQR readers (columns / tokens). Runs that fail are C12's subject and only counted "
+            "here.", "DESIGN.md#c09"),
 }
 
 NOT_APPLICABLE = {}
